@@ -121,7 +121,7 @@ func sameFields(ms []*model.Seg) bool {
 }
 
 func mergeWorkload(c *Ctx, slice int) {
-	n := c.N(320, 4000)
+	n := c.N(1600, 20000)
 	for i := 0; i < n; i++ {
 		if !c.Mine(i) {
 			continue
